@@ -474,6 +474,8 @@ def stream_cases(quick):
                 for b in two:
                     if a or b:
                         for mode in ('burst', 'stepped', 'early'):
+                            if len(a) == 3 and (mode != 'burst' or len(b) == 2):
+                                continue
                             cases.append((cfg, {'mode': mode, 'c': a, 's': b}))
                             if len(a) == 3:
                                 cases.append((cfg, {'mode': mode, 'c': b, 's': a}))
@@ -485,8 +487,9 @@ def stream_cases(quick):
                             cases.append((cfg, {'mode': mode, 'c': b, 's': a}))
         for cfg in cfg1:
             for a, b in pairs2:
-                for mode in ('burst', 'stepped'):
-                    cases.append((cfg, {'mode': mode, 'c': a, 's': b}))
+                if len(a) <= 1 or len(b) <= 1 or a == b:
+                    for mode in ('burst', 'stepped'):
+                        cases.append((cfg, {'mode': mode, 'c': a, 's': b}))
             for a, b in pairs1:
                 cases.append((cfg, {'mode': 'early', 'c': a, 's': b}))
             for a in seqs(['33E', '70E'], 1)[1:]:
@@ -789,6 +792,7 @@ def w_multi(hists):
 # sub-check 3: scripts under all order-preserving delivery delays
 # ---------------------------------------------------------------------------
 SCHED_SCRIPTS = ['single', 'two', 'both_close', 'same_close', 'restart']
+SAME_CLOSE_DELAYS = [0, 2, 3, 4, 6, 12]
 
 
 def run_sched(params, prefix, fp):
@@ -822,7 +826,7 @@ def run_sched(params, prefix, fp):
         if script == 'single':
             # tight geometry (23/24-byte frames, 1 and 2 initial credits); the server application answers from its acceptor
             ec, es = r.eff(2)
-            nc, ns = 5 * ec + 1, 4 * es + 3
+            nc, ns = 2 * ec + 1, es + 3
 
             def hook(ch, dlc):
                 wr(1, ch, dlc, ns)
@@ -869,10 +873,16 @@ def run_sched(params, prefix, fp):
             async def later(dlc):
                 import asyncio
 
-                await asyncio.sleep(0)
+                # the server application decides `delay` loop iterations after the client's: every relative timing of
+                # the local close against the arrival of the peer's DISC is enumerated
+                for _ in range(params.get('delay', 1)):
+                    await asyncio.sleep(0)
                 await close(dlc)
 
-            tasks += [loop.create_task(close(r.c_dlc[2])), loop.create_task(later(r.s_dlc[2]))]
+            if params.get('late', 's') == 's':
+                tasks += [loop.create_task(close(r.c_dlc[2])), loop.create_task(later(r.s_dlc[2]))]
+            else:
+                tasks += [loop.create_task(close(r.s_dlc[2])), loop.create_task(later(r.c_dlc[2]))]
         elif script == 'restart':
             ec, es = r.eff(1)
 
@@ -897,7 +907,22 @@ def run_sched(params, prefix, fp):
             viol.append(('sched_livelock', {'script': script}, str(e)))
         sched.active = False
         loop.scheduler = None
+        second_close_hung = None
+        if script == 'same_close' and tasks[0].done() and not tasks[1].done():
+            # the later closer found its DLC still CONNECTED although the peer had already closed the link (its DISC was
+            # acknowledged), sent its own DISC for a DLCI the peer no longer has, and waits for ever
+            discs = [x for x in r.mon.log if 'DISC(dlci=4' in x or 'UA(dlci=4' in x]
+            while discs and 'DISC' not in discs[0]:
+                discs.pop(0)
+            late = params.get('late', 's')
+            first, second = ('>0', '>1') if late == 's' else ('>1', '>0')
+            if len(discs) == 3 and discs[0].startswith(first + ' DISC') and discs[1].startswith(second + ' UA') and discs[2].startswith(second + ' DISC'):
+                second_close_hung = late
+                tasks[1].cancel()
+                viol.append(('dlc_close_after_peer_closed_never_completes', {'second_closer': late}, f'same_close (delay {params.get("delay", 1)}): the {"server" if late == "s" else "client"} end still held DLCI 4 CONNECTED after acknowledging the peer\'s DISC; its own disconnect() sent DISC to a peer that has forgotten the DLCI and never completed: {discs}'))
         for i, t in enumerate(tasks):
+            if second_close_hung and i == 1:
+                continue
             if not t.done():
                 t.cancel()
                 viol.append(('sched_task_pending', {'script': script, 'task': i}, f'{script}: application task {i} never finished'))
@@ -909,6 +934,8 @@ def run_sched(params, prefix, fp):
         for dlci in sorted(set(cv) | set(sv) | set(want)):
             c_st, s_st = cv.get(dlci, 'closed'), sv.get(dlci, 'closed')
             exp = 'open' if dlci in want else 'closed'
+            if second_close_hung and dlci == 4:
+                continue
             by = closers.get(dlci)
             if by and exp == 'closed' and (c_st, s_st) == (('closed', 'open') if by == 'c' else ('open', 'closed')):
                 viol.append(('dlc_teardown_one_sided', {'closed_by': by, 'closing_end': 'closed', 'peer_end': 'open'}, f'{script}: DLCI {dlci} was closed by the {"client" if by == "c" else "server"} end, which is done with it, but its peer still holds the link CONNECTED (client: {c_st}, server: {s_st})'))
@@ -969,7 +996,10 @@ def run(ctx: core.Context) -> int:
         st = ctx.sub('sched')
         bound = 1 if quick else 2
         for s in SCHED_SCRIPTS:
-            explore.explore(run_sched, {'script': s}, bound, ctx.jobs, st, max_runs=None if quick else 40000, label=f'{s}:')
+            explore.explore(run_sched, {'script': s}, bound, ctx.jobs, st, max_runs=None if quick else 15000, label=f'{s}:')
+        for late in ('s', 'c'):
+            for delay in SAME_CLOSE_DELAYS:
+                explore.explore(run_sched, {'script': 'same_close', 'delay': delay, 'late': late}, 1, ctx.jobs, st, label=f'same_close+{delay}{late}:')
         ctx.log('sched:', st.summary())
     if want('slc'):
         run_slc(ctx)
@@ -1335,8 +1365,8 @@ AT_STATES = {
     'slc_full_cmee': (SLC_DEFAULT, True, ['AT+CMEE=1']),
     'slc_plain': (dict(SLC_DEFAULT, hf=HF_ALL & ~(0x002 | 0x100 | 0x080), ag=AG_ALL & ~(0x001 | 0x400 | 0x200)), True, []),
 }
-VALUES_Q = ['1', '0', '3', '99999', '', 'abc', '1x', '(1,2)']
-VALUES_T = VALUES_Q + ['2', '7', '15', '255', '-1', '"1"', '4', '2x', '1,']
+VALUES_Q = ['1', '0', '3', '15', '99999', '', 'abc', '1x', '(1,2)']
+VALUES_T = VALUES_Q + ['2', '7', '21', '255', '-1', '"1"', '4', '2x', '1,']
 VALUE_KIND = {'': 'empty', 'abc': 'nonnumeric', '1x': 'digit_letter', '2x': 'digit_letter', '(1,2)': 'nested_list', '"1"': 'quoted_number', '1,': 'extra_comma'}
 
 
@@ -1572,6 +1602,8 @@ def run_at(ctx):
     for part in core.pmap(w_at, core.split(items, ctx.jobs * 4), ctx.jobs):
         results.extend(part)
     groups = {}
+    extra = {}
+    qkeys = {(it[1], it[5], it[6]) for it in (items if ctx.quick else at_items(True))}
     for res in results:
         st.case((res['state'], res['what'], res['calls']), None)
         st.add('command_forms', res['form'])
@@ -1591,19 +1623,31 @@ def run_at(ctx):
         else:
             coarse = '*' if res['rel'] != 'ok' else ('numeric' if res['vkind'] in ('numeric', 'none') else 'not_all_numeric')
         key = (f, tuple(res['exc']), res['rel'], coarse, res['probe'] == 1)
-        g = groups.setdefault(key, {'forms': set(), 'states': set(), 'examples': []})
+        # signatures are tier-independent: class membership is taken from the quick tier's space; what only the thorough
+        # tier's additional values / states add to a class is reported separately
+        table = groups if (res['state'], res['what'], res['calls']) in qkeys else extra
+        g = table.setdefault(key, {'forms': set(), 'states': set(), 'examples': []})
         g['forms'].add(res['form'])
         g['states'].add(res['state'])
         if res['form'] not in {e['form'] for e in g['examples']}:
             g['examples'].append(dict(case, form=res['form'], results=res['results']))
-    for (f, exc, rel, coarse, answers), g in sorted(groups.items(), key=lambda kv: repr(kv[0])):
-        sig = {'finals': f, 'cause': list(exc), 'arity': rel, 'values': coarse, 'ag_answers_afterwards': answers, 'commands': sorted(g['forms']), 'states': sorted(g['states'])}
+    report = [(k, g, False) for k, g in groups.items()]
+    for k, g in extra.items():
+        more = g['forms'] - groups.get(k, {'forms': set()})['forms']
+        if more:
+            g['forms'] = more
+            g['examples'] = [e for e in g['examples'] if e['form'] in more]
+            report.append((k, g, True))
+    for (f, exc, rel, coarse, answers), g, beyond in sorted(report, key=lambda kv: repr((kv[0], kv[2]))):
+        sig = {'finals': f, 'cause': list(exc), 'arity': rel, 'values': coarse, 'ag_answers_afterwards': answers, 'commands': sorted(g['forms'])}
+        if beyond:
+            sig['only_in_thorough_space'] = True
         ex = g['examples'][0]
         st.violation(
             'at_final_result_codes',
             sig,
             f'{len(g["forms"])} command forms (arity {rel}, values {coarse}) are concluded by {f} final result codes (exception inside the AG: {list(exc) or "none"}; '
-            f'a following AT+CHUP is {"answered" if answers else "NOT answered"}): {sorted(g["forms"])}; e.g. [{ex["state"]}] {ex["what"]!r} -> {ex["results"]}',
+            f'a following AT+CHUP is {"answered" if answers else "NOT answered"}) in AG states {sorted(g["states"])}: {sorted(g["forms"])}; e.g. [{ex["state"]}] {ex["what"]!r} -> {ex["results"]}',
             {'at': [{k: e[k] for k in ('state', 'kind', 'what', 'calls')} for e in g['examples'][:40]]},
         )
     ctx.log('at:', st.summary())
